@@ -85,7 +85,7 @@ SPEC = {
 
 CLAIM = {
     "category": "proof",
-    "text": "Theorems decidable_iff_strongLL (for a non-terminal with at least two alternatives and non-empty FOLLOW sets, the model of `decidable` answers ok k exactly when k is in 1..K, the non-terminal is strong-LL(k) and it is not strong-LL(j) for any 1 <= j < k; it answers MaxKExceeded exactly when no such k exists; one alternative gives ok 0), k_minimal, reject_names_real_overlap (the non-terminal at which calculate_k_tuples stops has overlapping lookahead sets at every k <= K, in particular at K) and pipeline_accepts_iff hold for ALL grammars, relative to the FIRST/FOLLOW sets being the declarative sets (C06). StrongLL is the declarative strong-LL(k) condition over FirstK/FollowK. Tied to the code by byte-identical differential runs of the real functions, and every implementation reply is judged by strong-LL(k) evaluated on the verified reference sets.",
+    "text": "Theorems decidable_iff_strongLL (for a non-terminal with at least two alternatives and non-empty FOLLOW sets, the model of `decidable` answers ok k exactly when k is in 1..K, the non-terminal is strong-LL(k) and it is not strong-LL(j) for any 1 <= j < k; it answers MaxKExceeded exactly when no such k exists; one alternative gives ok 0), k_minimal, reject_names_real_overlap (the non-terminal at which calculate_k_tuples stops has overlapping lookahead sets at every k <= K, in particular at K) and pipeline_accepts_iff hold for ALL grammars, relative to the FIRST/FOLLOW sets being the declarative sets; decidable_iff_strongLL_class discharges that hypothesis with C06's theorems for productive, reachable grammars without left recursion. StrongLL is the declarative strong-LL(k) condition over FirstK/FollowK. Tied to the code by byte-identical differential runs of the real functions, and every implementation reply is judged by strong-LL(k) evaluated on the verified reference sets.",
     "design_ref": "DESIGN.md §6 C05",
     "note": "Trusted: Lean kernel (propext, Quot.sound, Classical.choice), faithfulness of the hand-written model as observed by the differential run, harness and orchestrator. The MaxKExceeded error itself carries no non-terminal name; 'names a non-terminal' is realised by the first failing non-terminal of the try_fold / by `parol decidable` listing the failing ones via explain_conflicts, which is what is modelled and checked.",
     "technique": "Lean 4 proof over hand-written model + differential correspondence check + verified reference oracle",
